@@ -447,6 +447,7 @@ pub fn print_case(run: usize, p: &Problem, dir: &str) -> Value {
         s1.solve();
         let b1 = s1.get_print_buffer().unwrap();
         let b1_again = s1.get_print_buffer().unwrap();       // reading the buffer does not consume it
+        let clone_same = s1.info.clone().get_print_buffer().map(|c| c == b1).unwrap_or(false);   // a copy of the info object carries the log
         // stream
         let shared = SharedBuf(Arc::new(Mutex::new(vec![])));
         let mut s2 = mk(true);
@@ -532,7 +533,7 @@ pub fn print_case(run: usize, p: &Problem, dir: &str) -> Value {
         json!({"ev": "PrintCase", "run": run,
             "same_stream": mask_time(&b1) == mask_time(&b2), "same_file": mask_time(&b1) == mask_time(&b3),
             "same_short_stream": mask_time(&b1) == mask_time(&b7),
-            "reread_same": b1 == b1_again, "rebuffer_fresh": mask_time(&b1_fresh) == mask_time(&b1),
+            "reread_same": b1 == b1_again, "clone_same": clone_same, "rebuffer_fresh": mask_time(&b1_fresh) == mask_time(&b1),
             "two_solves_same": mask_time(&b1_two) == mask_time(&b2_two) && b1_two.starts_with(&b1) && b1_two.len() > b1.len(),
             "len_buffer": b1.len(), "len_quiet_buffer": b4.len(), "len_quiet_stream": b5len, "len_after_sink": b6.len(),
             "getbuf_err": [getbuf_stream_err, getbuf_file_err, getbuf_sink_err],
